@@ -37,9 +37,9 @@ class Decoder16:
 
 
 class Gear:
-    def __init__(self, short=255, rand=0, store_ok=True, groups=(), dts=()):
+    def __init__(self, short=255, rand=0, store_ok=True, groups=(), dts=(), init="DISABLED"):
         self.short, self.rand, self.store_ok = short, rand, store_ok
-        self.init = "DISABLED"
+        self.init = init
         self.groups = set(groups)
         self.dts = list(dts)
         self.dtpos = 0
